@@ -114,7 +114,8 @@ Proof. exact C04_C05_history_x_rt. Qed.
 
 (* ---------- all 26 constructors (no pending constructor).  Moves between two models (move_element_full) are covered; the
    finding classes are Known04a / Known05a of Tree/RefsAll.v (Known04 without the side condition on the type of a model root,
-   Known05 plus the two-model form of the container-move collision).  RX (Tree/IndexProofsNodeInv.v: every reference element
+   Known05 plus the two-model form of the container-move collision `collision_x`, and for copies the result condition
+   copy_clean_a = copy_clean without the duplicate check on the referrers, which is derived: Tree/IndexProofsCopyA.v).  RX (Tree/IndexProofsNodeInv.v: every reference element
    holds string data, every model root has a type that is neither named nor a reference type) is kept by every operation
    without any exception class and holds in the empty world. *)
 Theorem C04_nodes_inv :
